@@ -172,7 +172,7 @@ def judge : Judge := liftJudge fun input obs => do
       else if !s5 then "backoff:gap-too-short"
       else "cb:not-one-record-per-request"
     let t := (if r.stream then ["stream", "stream:" ++ (if r.skind == "" then "cl>0" else r.skind)] else [])
-      ++ (if r.payload == "" then ["payload:empty"] else []) ++ (if r.cancel != "" then ["cancel:" ++ r.cancel] else [])
+      ++ (if r.payload == "" then ["payload:empty"] else []) ++ (if r.cancel != "" then ["cancel:" ++ r.cancel] ++ (if r.at_ ≥ 1 then ["cancel:at-later-attempt"] else []) else [])
       ++ (if calls ≥ 2 then ["retried"] else []) ++ (if shortObs then ["short-circuited"] else [])
       ++ (if result == "timeout" then ["408"] else []) ++ (if result == "" then ["success"] else ["result:" ++ result])
       ++ (if hasCB && cbS.isOpen && !acc.cbSpec.isOpen then ["cb-opens"] else [])
